@@ -264,5 +264,7 @@ func (c *tcpConnectionActor) handshake() (err error) {
 		}
 	}
 
-	return nil
+	// 握手期间设置的读写超时仅用于握手本身，完成后必须清除，否则连接会在建立 10 秒后因过期的超时被读写双方判定为失败
+	err = c.conn.SetDeadline(time.Time{})
+	return err
 }
